@@ -21,7 +21,6 @@ import datetime
 import io
 import json
 import random
-from fractions import Fraction
 
 from harness import balance as hb
 from harness.core import MachineryError
